@@ -74,6 +74,23 @@ class Sym:
         self.m, self.lower = m, lower
 
 
+class CommaInit:
+    """Eigen's `m << a, b, c`: fills the target in row-major order"""
+
+    def __init__(self, view):
+        self.view, self.k = view, 0
+
+    def push(self, x):
+        nr, nc = len(self.view.rows), len(self.view.cols)
+        if isinstance(x, sp.MatrixBase):
+            raise AnalysisBroken("dense: block in a comma initialiser")
+        if self.k >= nr * nc:
+            raise AnalysisBroken("dense: too many coefficients in a comma initialiser")
+        self.view.sub([self.k // nc], [self.k % nc]).assign(x)
+        self.k += 1
+        return self
+
+
 class _Return(Exception):
     def __init__(self, v):
         self.v = v
@@ -366,7 +383,9 @@ class Dense:
         return lhs
 
     def method(self, n, env, this):
-        short = re.sub(r"<.*$", "", n.get("callee_targs") or n["callee"].split("::")[-1])
+        ct = n.get("callee_targs") or n["callee"].split("::")[-1]
+        mo = re.match(r"^operator(<<=?|<=?|>>=?|>=?|\(\)|\[\]|[^<\s\w]+)", ct)
+        short = ("operator" + mo.group(1)) if mo else re.sub(r"<.*$", "", ct)
         if n["k"] == "opcall":
             objn, argn = n["args"][0], n["args"][1:]
         else:
@@ -384,6 +403,16 @@ class Dense:
             lhs = self.ev(objn, env, this)
             rhs = self.val(self.ev(argn[0], env, this))
             return self.store(lhs, short[8:], rhs)
+        if short == "operator<<" and len(argn) == 1:
+            tgt = self.whole(self.ev(objn, env, this))
+            if not isinstance(tgt, View):
+                raise AnalysisBroken("dense: << on something that is not a matrix")
+            return CommaInit(tgt).push(self.val(self.ev(argn[0], env, this)))
+        if short == "operator," and len(argn) == 1:
+            ci = self.ev(objn, env, this)
+            if not isinstance(ci, CommaInit):
+                raise AnalysisBroken("dense: comma operator outside a comma initialiser")
+            return ci.push(self.val(self.ev(argn[0], env, this)))
         if short.startswith("operator") and short[8:] in ("+", "-", "*", "/"):
             a = self.val(self.ev(objn, env, this))
             if not argn:
@@ -445,6 +474,10 @@ class Dense:
                 return v.sub(range(nr - a[0], nr), range(nc))
             if short == "block" and len(a) == 4:
                 return v.sub(range(a[0], a[0] + a[2]), range(a[1], a[1] + a[3]))
+            if short == "block" and len(a) == 2:
+                mt = re.match(r"^block<(\d+), (\d+)", n.get("callee_targs") or "")
+                if mt:
+                    return v.sub(range(a[0], a[0] + int(mt.group(1))), range(a[1], a[1] + int(mt.group(2))))
             raise AnalysisBroken("dense: %s with %d arguments" % (short, len(a)))
         if short == "transpose":
             return self.val(o).T
